@@ -1,5 +1,5 @@
-//! In-crate Kani harness for net::client::stream::Queries (private), included by the hook
-//! `#[cfg(kani)] #[path = "/verif/kani/incrate/queries.rs"] mod verif_kani;`
+// In-crate Kani harness for net::client::stream::Queries (private), included by the hook
+// hook: #[cfg(kani)] mod verif_kani { include!("/verif/kani/incrate/<file>.rs"); }
 use super::Queries;
 
 const SLOTS: usize = 4;
